@@ -67,6 +67,8 @@ type NodeSpec struct {
 	Cordoned      bool `json:"cordoned,omitempty"`
 	// StartupTaintsLeft: the pool's startup taints are still on the node (only meaningful before initialization)
 	StartupTaintsLeft bool `json:"startupTaintsLeft,omitempty"`
+	// StartupTaintStyle: how the startup taints were written on the node ("" = as in the template, value, timeAdded)
+	StartupTaintStyle string `json:"startupTaintStyle,omitempty"`
 	// ZeroStatus: the kubelet has not populated extended / some resources yet (reports zero)
 	ZeroStatus  []string          `json:"zeroStatus,omitempty"`
 	ExtraLabels map[string]string `json:"extraLabels,omitempty"`
@@ -203,7 +205,7 @@ func (w *World) ApplyNode(s NodeSpec, pool *v1.NodePool) *BuiltNode {
 		if s.Stage == StageInitialized {
 			labels[v1.NodeInitializedLabelKey] = "true"
 		} else if s.StartupTaintsLeft || s.Stage == StageUnregistered {
-			taints = append(taints, nc.Spec.StartupTaints...)
+			taints = append(taints, StyledStartupTaints(nc.Spec.StartupTaints, s.StartupTaintStyle, w.Clock.Now())...)
 		}
 		taints = append(taints, s.ExtraTaints...)
 		capacity, alloc := opt.Type.CapacityOf(opt.Offering), opt.Type.Allocatable(opt.Offering)
